@@ -46,7 +46,7 @@ theorem C03_value_shape {ρ : Type} (n : Nat) (ns : List Nat) :
     (Strict.fromNodes .oneOrMore ns : Prog ρ Val) = pure (.list (ns.map .syn)) :=
   C01_capture_values n ns
 
-/-- under tree-sitter's quantifier contract (a `One` capture has a node) binding a capture never panics -/
+/-- when a capture that the query reports as occurring once has a node, binding it yields a value -/
 theorem C03_binding_total {ρ : Type} (q : Quant) (nodes : List Nat) (hq : q ≠ .zero) (hone : q = .one → nodes ≠ []) :
     ∃ v, (Strict.fromNodes q nodes : Prog ρ Val) = pure v := by
   cases q with
@@ -58,6 +58,23 @@ theorem C03_binding_total {ρ : Type} (q : Quant) (nodes : List Nat) (hq : q ≠
   | zeroOrOne => cases nodes <;> exact ⟨_, rfl⟩
   | zeroOrMore => exact ⟨_, rfl⟩
   | oneOrMore => exact ⟨_, rfl⟩
+
+/-- **a capture the match has no node for.** tree-sitter keeps at most three captures per pattern step and drops the others
+from every match while its quantifier table still says they occur exactly once. Binding such a capture is the error
+`UndefinedCapture` (since the repair of `Capture::evaluate`; it was a panic) — never a value, never a panic; so for EVERY
+node list and every quantifier but `Zero` binding ends in a value or in that error. -/
+theorem C03_binding_never_panics {ρ : Type} (q : Quant) (nodes : List Nat) (hq : q ≠ .zero) :
+    (∃ v, (Strict.fromNodes q nodes : Prog ρ Val) = pure v) ∨
+    (q = .one ∧ nodes = [] ∧ (Strict.fromNodes q nodes : Prog ρ Val) = Prog.throwK .undefinedCapture) := by
+  cases q with
+  | zero => exact absurd rfl hq
+  | one =>
+    cases nodes with
+    | nil => exact Or.inr ⟨rfl, rfl, rfl⟩
+    | cons n ns => exact Or.inl ⟨_, rfl⟩
+  | zeroOrOne => cases nodes <;> exact Or.inl ⟨_, rfl⟩
+  | zeroOrMore => exact Or.inl ⟨_, rfl⟩
+  | oneOrMore => exact Or.inl ⟨_, rfl⟩
 
 /-- **No cross-talk.** What `@name` evaluates to in a block depends only on the running stanza's own
 capture table (`env.quants`) and the match at hand (`env.mat`) — not on any other stanza, even one that
